@@ -34,6 +34,8 @@ func (sc *sliceContainers) Get(key uint64) *Container {
 }
 
 func (sc *sliceContainers) Put(key uint64, c *Container) {
+	// The cached container for this key (if any) is being replaced.
+	sc.invalidateLast(key)
 	i := search64(sc.keys, key)
 
 	// If index is negative then there's not an exact match
@@ -47,6 +49,7 @@ func (sc *sliceContainers) Put(key uint64, c *Container) {
 }
 
 func (sc *sliceContainers) PutContainerValues(key uint64, typ byte, n int, mapped bool) {
+	sc.invalidateLast(key)
 	i := search64(sc.keys, key)
 	if i < 0 {
 		c := NewContainer()
@@ -109,8 +112,21 @@ func (sc *sliceContainers) GetOrCreate(key uint64) *Container {
 		return c
 	}
 
+	if sc.containers[i] == nil {
+		// A nil container can be left behind by Put/Update/UpdateEvery when
+		// the last bit is removed; replace it so callers can add to it.
+		sc.containers[i] = NewContainer()
+	}
 	sc.lastContainer = sc.containers[i]
 	return sc.lastContainer
+}
+
+// invalidateLast forgets the lookaside cache if it refers to key.
+func (sc *sliceContainers) invalidateLast(key uint64) {
+	if key == sc.lastKey {
+		sc.lastKey = ^uint64(0)
+		sc.lastContainer = nil
+	}
 }
 
 func (sc *sliceContainers) Clone() Containers {
@@ -199,6 +215,7 @@ func (sc *sliceContainers) Repair() {
 // (new-container, write). If write is true, the container is used to
 // replace the given container.
 func (sc *sliceContainers) Update(key uint64, fn func(*Container, bool) (*Container, bool)) {
+	sc.invalidateLast(key)
 	i, found := sc.seek(key)
 	var nc *Container
 	var write bool
@@ -212,7 +229,8 @@ func (sc *sliceContainers) Update(key uint64, fn func(*Container, bool) (*Contai
 		// don't expand the slice just to add a nil container, we
 		// could return that anyway
 		if write && nc != nil {
-			sc.insertAt(key, nc, -i-1)
+			// seek already converted i to the insertion index
+			sc.insertAt(key, nc, i)
 		}
 	}
 }
@@ -221,6 +239,7 @@ func (sc *sliceContainers) Update(key uint64, fn func(*Container, bool) (*Contai
 // (new-container, write). If write is true, the container is used to
 // replace the given container.
 func (sc *sliceContainers) UpdateEvery(fn func(uint64, *Container, bool) (*Container, bool)) {
+	sc.invalidateLast(sc.lastKey)
 	for i, c := range sc.containers {
 		nc, write := fn(sc.keys[i], c, true)
 		if write {
